@@ -4,6 +4,7 @@ import (
 	"fmt"
 	"net"
 	"os"
+	"strings"
 	"sync"
 	"time"
 
@@ -86,6 +87,9 @@ func checkOverlap(c overlapCase) *rp.Fail {
 }
 
 func runOverlap(c overlapCase) *rp.Fail {
+	if c.Kind == "two-sites" {
+		return checkTwoSites(c)
+	}
 	port, err := farm.FreePort([4]byte{127, 0, 0, 1})
 	if err != nil {
 		return nil
@@ -180,6 +184,104 @@ func runOverlap(c overlapCase) *rp.Fail {
 			return rp.Failf("uhppote.Listen/overlap/error-callbacks", "running listener (%+v): %d malformed datagrams sent after the overlapping Listen call, %d error callbacks", c, c.Malformed, errs-errs0)
 		}
 		q <- os.Interrupt
+	case "restart-while-callback-busy":
+		// the first listener is stopped while one of its callbacks is still busy (a slow consumer); the application starts its
+		// next listener on the same client at once. The old Listen returns when its callback is done, the new one delivers.
+		release := make(chan struct{})
+		busy := make(chan struct{}, 1)
+		rec.mu.Lock()
+		rec.onEvent = func(ix uint32) {
+			if ix == 2 {
+				select {
+				case busy <- struct{}{}:
+				default:
+				}
+				<-release
+			}
+		}
+		rec.mu.Unlock()
+		sender.Write(eventDatagram(2))
+		for i := 0; i < c.Events; i++ {
+			sender.Write(eventDatagram(uint32(3 + i))) // (pending behind the busy callback)
+		}
+		select {
+		case <-busy:
+		case <-time.After(3 * time.Second):
+			close(release)
+			q <- os.Interrupt
+			return rp.Failf("uhppote.Listen/missing-callbacks", "event 2 was not delivered within 3 s")
+		}
+		q <- os.Interrupt
+		rec2 := &orderRec{}
+		q2 := make(chan os.Signal, 1)
+		done2 := make(chan error, 1)
+		started := false
+		for deadline := time.Now().Add(4 * time.Second); !started && time.Now().Before(deadline); {
+			ch := make(chan error, 1)
+			go func() {
+				defer func() {
+					if r := recover(); r != nil {
+						ch <- fmt.Errorf("PANIC: %v", r)
+					}
+				}()
+				ch <- u.Listen(rec2, q2)
+			}()
+			select {
+			case err := <-ch: // (address still in use: the old socket is not closed yet - try again)
+				if err != nil && strings.HasPrefix(err.Error(), "PANIC") {
+					close(release)
+					return rp.Failf("uhppote.Listen/panic", "second Listen: %v", err)
+				}
+				time.Sleep(5 * time.Millisecond)
+			case <-time.After(150 * time.Millisecond):
+				started = true
+				go func() { done2 <- <-ch }()
+			}
+		}
+		if !started {
+			close(release)
+			<-done
+			ev.Excluded("the second listener could not bind while the first callback was busy", 1)
+			return nil
+		}
+		// the new listener works
+		for deadline := time.Now().Add(3 * time.Second); ; time.Sleep(10 * time.Millisecond) {
+			sender.Write(eventDatagram(100))
+			if got, _ := rec2.snapshot(); len(got) > 0 {
+				break
+			}
+			if time.Now().After(deadline) {
+				close(release)
+				q2 <- os.Interrupt
+				return rp.Failf("uhppote.Listen/restart-while-callback-busy/new-listener-deaf", "the listener that was started while the old listener's callback was still busy received nothing within 3 s")
+			}
+		}
+		close(release)
+		select {
+		case err := <-done:
+			if err != nil {
+				q2 <- os.Interrupt
+				return rp.Failf("uhppote.Listen/restart-while-callback-busy/stop-error", "the first Listen returned %v", err)
+			}
+		case <-time.After(6 * time.Second):
+			q2 <- os.Interrupt
+			return rp.Failf("uhppote.Listen/restart-while-callback-busy/does-not-stop", "the first Listen has not returned 6 s after its busy callback finished (it had been signalled to stop before the next listener was started on the same client)")
+		}
+		q2 <- os.Interrupt
+		select {
+		case err := <-done2:
+			if err != nil {
+				return rp.Failf("uhppote.Listen/restart-while-callback-busy/stop-error", "the second Listen returned %v", err)
+			}
+		case <-time.After(6 * time.Second):
+			return rp.Failf("uhppote.Listen/restart-while-callback-busy/does-not-stop", "the second Listen has not returned 6 s after its stop signal")
+		}
+		if l, err := net.ListenUDP("udp4", dest); err != nil {
+			return rp.Failf("uhppote.Listen/restart-while-callback-busy/address-still-bound", "listen address not free after both listeners returned: %v", err)
+		} else {
+			l.Close()
+		}
+		return nil
 	case "stop-from-callback":
 		returned := make(chan struct{})
 		rec.mu.Lock()
@@ -229,6 +331,10 @@ func sweepOverlap(yield func(overlapCase) bool) {
 		{Kind: "overlap", Overlaps: 2, Events: 5, Malformed: 2, Debug: true},
 		{Kind: "overlap", Overlaps: 0, Events: 4, Malformed: 4},
 		{Kind: "stop-from-callback", Events: 1},
+		{Kind: "restart-while-callback-busy", Events: 1},
+		{Kind: "two-sites", Events: 3},
+		{Kind: "two-sites", Events: 5, Debug: true},
+		{Kind: "restart-while-callback-busy", Events: 0, Debug: true},
 		{Kind: "stop-from-callback", Events: 4, Debug: true},
 	}
 	if ev.Thorough() {
@@ -241,4 +347,133 @@ func sweepOverlap(yield func(overlapCase) bool) {
 			return
 		}
 	}
+}
+
+// two-sites: two clients of one process listen at the same time on the same port number of two different local addresses (two
+// sites, each with an address of its own on this host - 127.0.0.2 and 127.0.0.3 here, which are local like every 127.x.y.z);
+// each gets exactly the events sent to its address, in order, both stop when signalled and both addresses are free again.
+func checkTwoSites(c overlapCase) *rp.Fail {
+	ips := [][4]byte{{127, 0, 0, 2}, {127, 0, 0, 3}}
+	var port uint16
+	for try := 0; try < 20 && port == 0; try++ {
+		p, err := farm.FreePort(ips[0])
+		if err != nil {
+			return nil
+		}
+		if q, err := farm.FreePortAt(ips[1], p); err == nil && q == p {
+			port = p
+		}
+	}
+	if port == 0 {
+		ev.Excluded("no port free on both addresses", 1)
+		return nil
+	}
+	type site struct {
+		rec    *orderRec
+		q      chan os.Signal
+		done   chan error
+		sender *net.UDPConn
+		dest   *net.UDPAddr
+	}
+	var sites []*site
+	for _, ip := range ips {
+		dest := &net.UDPAddr{IP: net.IP(ip[:]), Port: int(port)}
+		sender, err := net.DialUDP("udp4", nil, dest)
+		if err != nil {
+			return nil
+		}
+		defer sender.Close()
+		u := hook.Real(hook.ClientCfg{HasListen: true, ListenIP: ip, ListenPort: port, Debug: c.Debug})
+		s := &site{rec: &orderRec{}, q: make(chan os.Signal, 1), done: make(chan error, 1), sender: sender, dest: dest}
+		go func() {
+			defer func() {
+				if r := recover(); r != nil {
+					s.done <- fmt.Errorf("PANIC: %v", r)
+				}
+			}()
+			s.done <- u.Listen(s.rec, s.q)
+		}()
+		sites = append(sites, s)
+	}
+	stopAll := func() {
+		for _, s := range sites {
+			select {
+			case s.q <- os.Interrupt:
+			default:
+			}
+		}
+	}
+	// both listeners come up (event 1 is re-sent until it has been delivered)
+	for k, s := range sites {
+		for deadline := time.Now().Add(5 * time.Second); ; time.Sleep(10 * time.Millisecond) {
+			select {
+			case err := <-s.done:
+				stopAll()
+				return rp.Failf("uhppote.Listen/two-sites/did-not-start", "the listener on %v returned %v while another client of the process was listening on %v (the addresses differ, the port number is the same)", s.dest, err, sites[1-k].dest)
+			default:
+			}
+			s.sender.Write(eventDatagram(1))
+			time.Sleep(5 * time.Millisecond)
+			if got, _ := s.rec.snapshot(); len(got) > 0 {
+				break
+			}
+			if time.Now().After(deadline) {
+				stopAll()
+				return rp.Failf("uhppote.Listen/two-sites/missing-callbacks", "the listener on %v delivered nothing within 5 s", s.dest)
+			}
+		}
+	}
+	for i := 0; i < c.Events; i++ {
+		for k, s := range sites {
+			s.sender.Write(eventDatagram(uint32(10*(k+1) + i)))
+		}
+		time.Sleep(time.Millisecond)
+	}
+	for k, s := range sites {
+		var got []uint32
+		for deadline := time.Now().Add(3 * time.Second); ; time.Sleep(2 * time.Millisecond) {
+			got, _ = s.rec.snapshot()
+			n := 0
+			for _, ix := range got {
+				if ix != 1 {
+					n++
+				}
+			}
+			if n >= c.Events || time.Now().After(deadline) {
+				break
+			}
+		}
+		want := uint32(10 * (k + 1))
+		for _, ix := range got {
+			if ix == 1 {
+				continue
+			}
+			if ix != want {
+				stopAll()
+				return rp.Failf("uhppote.Listen/two-sites/events-lost-or-astray", "the listener on %v was sent events %d..%d (and event 1 until it was up); callbacks: %v", s.dest, 10*(k+1), 10*(k+1)+c.Events-1, got)
+			}
+			want++
+		}
+		if int(want)-10*(k+1) != c.Events {
+			stopAll()
+			return rp.Failf("uhppote.Listen/two-sites/events-lost-or-astray", "the listener on %v was sent events %d..%d (and event 1 until it was up); callbacks: %v", s.dest, 10*(k+1), 10*(k+1)+c.Events-1, got)
+		}
+	}
+	stopAll()
+	for _, s := range sites {
+		select {
+		case err := <-s.done:
+			if err != nil {
+				return rp.Failf("uhppote.Listen/two-sites/stop-error", "the listener on %v returned %v after the stop signal", s.dest, err)
+			}
+		case <-time.After(6 * time.Second):
+			return rp.Failf("uhppote.Listen/two-sites/does-not-stop", "the listener on %v has not returned 6 s after the stop signal", s.dest)
+		}
+		if l, err := net.ListenUDP("udp4", s.dest); err != nil {
+			return rp.Failf("uhppote.Listen/two-sites/address-still-bound", "%v is not free after Listen returned: %v", s.dest, err)
+		} else {
+			l.Close()
+		}
+	}
+	return nil
 }
